@@ -372,6 +372,48 @@ mod tests {
 		assert_eq!(s.port, Some(2..2));
 	}
 
+	fn v(x: &[&str]) -> Segs {
+		x.iter().map(|s| s.as_bytes().to_vec()).collect()
+	}
+
+	#[test]
+	fn outcomes_push_pop_clear() {
+		assert_eq!(path_outcomes(false, &v(&["a"]), &MPathOp::Push(b"b")), vec![v(&["a", "b"])]);
+		assert_eq!(path_outcomes(false, &v(&[]), &MPathOp::Pop), vec![v(&[".."])]);
+		assert_eq!(path_outcomes(true, &v(&[]), &MPathOp::Pop), vec![v(&[])]);
+		assert_eq!(path_outcomes(true, &v(&["a", ".."]), &MPathOp::Pop), vec![v(&["a", "..", ".."])]);
+		assert_eq!(path_outcomes(true, &v(&["a", "b"]), &MPathOp::Pop), vec![v(&["a"])]);
+		assert_eq!(path_outcomes(true, &v(&["a", "b"]), &MPathOp::Clear), vec![v(&[])]);
+	}
+
+	#[test]
+	fn outcomes_symbolic() {
+		// ".." pops and leaves the directory open
+		let o = path_outcomes(true, &v(&["a", "b"]), &MPathOp::SymPush(b".."));
+		assert!(o.contains(&v(&["a", ""])));
+		assert!(!o.contains(&v(&["a"])));
+		// "." on a list ending in an empty segment: both readings
+		let o = path_outcomes(false, &v(&["a", ""]), &MPathOp::SymPush(b"."));
+		assert!(o.contains(&v(&["a", ""])) && o.contains(&v(&["a", "", ""])));
+		// ".." after which the list ends in an empty segment: the empty segment must be added
+		let o = path_outcomes(true, &v(&["a", "", "b"]), &MPathOp::SymAppend(vec![b".."]));
+		assert_eq!(o, vec![v(&["a", "", ""])]);
+		// an empty segment onto an empty list: appended or skipped
+		let o = path_outcomes(false, &v(&[]), &MPathOp::SymPush(b""));
+		assert!(o.contains(&v(&[])) && o.contains(&v(&[""])));
+		// ordinary segments behave like push
+		assert_eq!(path_outcomes(false, &v(&["a"]), &MPathOp::SymAppend(vec![b"b", b"c"])), vec![v(&["a", "b", "c"])]);
+	}
+
+	#[test]
+	fn shield_equivalence() {
+		assert_eq!(strip(&v(&[".", "a:b"])), &v(&["a:b"])[..]);
+		assert_eq!(strip(&v(&[".", ""])), &v(&[""])[..]);
+		assert_eq!(strip(&v(&[".", "x"])), &v(&[".", "x"])[..]);
+		assert_eq!(strip(&v(&["."])), &v(&["."])[..]);
+		assert_eq!(strip(&v(&["a", ".", ""])), &v(&["a", ".", ""])[..]);
+	}
+
 	#[test]
 	fn segs() {
 		assert_eq!(path_segs(b"/"), (true, vec![]));
